@@ -198,7 +198,8 @@ Inductive op :=
 | OPgNew (o : nat) (ds : list nat) | OPgAdd (g : nat) (ds : list nat)
 | OAllowDelete (e : nat) (b : bool)
 | ORemoveWs (e : nat) | ORemoveParent (e : nat)
-| ODrop | OList (k : kind) | OLookup (e : nat).
+| ODrop | OList (k : kind) | OLookup (e : nat)
+| ORemoveParentMany (es : list nat).
 
 Definition blank (k : kind) (p : nat) : ent := {| ekind := k; par := p; ch := []; pgs := []; adel := true |}.
 
@@ -281,6 +282,17 @@ Definition step (c : cfg) (w : st) (a : op) : st * outcome :=
           if memb e (held w) then (w, Found) else (set_reg_held w (filter (neqb e) (reg w)) (held w), NotFound)
         else (w, NotFound)
       else (w, BadOp)
+  | ORemoveParentMany es =>
+      (* parent.remove_children([e1; e2; ...]) with several children (possibly of different kinds) of one parent:
+         EntityContainer / ObjectBase.remove_children take them off the children list, then Workspace.remove_children
+         unlinks each one from the container of ITS kind (ref_type = str_from_type(child), per child) *)
+      match es with
+      | [] => (w, BadOp)
+      | e0 :: _ =>
+          let p := par (E w e0) in
+          if forallb (fun e => attachedb w e && negb (Nat.eqb e 0) && Nat.eqb (par (E w e)) p) es
+          then (fold_left (fun w e => parent_remove_child c w p e) es w, Ok) else (w, BadOp)
+      end
   end.
 
 Fixpoint run (c : cfg) (w : st) (h : list op) : st :=
